@@ -29,6 +29,7 @@ def run(sh):
     engine_line.run_profile(sh, 'C03', 'blocking', n // 2, MONITORS, nontrivial)
     engine_line.run_profile(sh, 'C03', 'general', n // 4, MONITORS, nontrivial)
     engine_line.run_profile(sh, 'C03', 'resources', n // 4, MONITORS, nontrivial)
+    engine_line.run_profile(sh, 'C03', 'resfaults', n // 2, MONITORS, nontrivial)
     from ..modelgen import DECIMAL
     engine_line.run_profile(sh, 'C03', 'blocking', n // 4, MONITORS, nontrivial, prefix='decimal_', overrides=DECIMAL,
                             tag='decimal')
